@@ -43,6 +43,7 @@ TNext ==
             /\ gv' = e.g0 /\ gm' = 1 /\ lv' = e.l0 /\ lm' = 1 /\ opts' = e.opts0
             /\ pout' = Absent /\ lout' = Absent /\ clock' = 2 /\ last' = [ok |-> TRUE, regenerated |-> FALSE, stage |-> "none"]
        [] e.ev = "edit_g" -> EditGrammar(e.v) /\ UNCHANGED <<inst, ndev, GI, LI>>
+       [] e.ev = "edit_g_same" -> EditGrammarSameTick(e.v) /\ UNCHANGED <<inst, ndev, GI, LI>>
        [] e.ev = "edit_l" -> EditLexer(e.v) /\ UNCHANGED <<inst, ndev, GI, LI>>
        [] e.ev = "set" -> SetOpt(e.k, e.v) /\ UNCHANGED <<inst, ndev, GI, LI>>
        [] OTHER -> \* build
